@@ -1,14 +1,15 @@
 """C17 — DTD data flush returns the last written value to the owner (component dtdflush).
 
 Case text (one line, see harness/h_dtdflush.c):
-  dtdflush <ranks> <ndata> <threads> <sched> <window> <threshold> <spin> <owners> | <item> ; <item> ; ...
+  dtdflush <ranks> <ndata> <threads> <sched> <window> <threshold> <spin> <owners> [<bytes>] | <item> ; <item> ; ...
+  bytes = size of a tile (3..16, default 16); "~" = late flush, "%r" = rank r inserts 30 ms late (timing only)
   item = task "[@rank] <datum><r|h|w|x>[^] ..." | "F<d>" (flush of one tile) | "F*" (flush_all) | "!" (wait)
-         h = read through the datatype of the leading part of the tile (tiles have NB elements, element i of a
-         tile of value v holds v + i * PMOD; writers always use the whole tile)
+         h = read through the datatype of the leading part of the tile (3 bytes; byte j of a tile of value v
+         holds enc(v, j); writers always use the whole tile)
   the harness ends every case with F* ; !
 Observation (both sides):
   in: <t>=<v>,<v> ... | snap: <v>,<v>,.. ... | data: v ... | runs: c ... | null=<k> torn=<n>
-  a tile is printed as v when all its elements belong to the value v, else as e0/e1/...
+  a tile is printed as v when all its bytes belong to the value v, else as b0/b1/...
 """
 import os
 import re
@@ -29,13 +30,16 @@ def parse_case(case):
     head, _, body = case.partition("|")
     w = head.split()
     hdr = {"ranks": int(w[1]), "ndata": int(w[2]), "threads": int(w[3]), "sched": w[4], "window": int(w[5]),
-           "threshold": int(w[6]), "spin": int(w[7]), "owner": [int(x) for x in w[8].split(",")]}
+           "threshold": int(w[6]), "spin": int(w[7]), "owner": [int(x) for x in w[8].split(",")],
+           "bytes": int(w[9]) if len(w) > 9 else 16}
     items = []
     for f in [x.strip() for x in body.split(";")]:
         if f == "":
             continue
         if f == "!":
             items.append(("!",))
+        elif f.startswith("%"):
+            items.append(("%", int(f[1:])))     # timing only: rank r inserts what follows 30 ms late
         elif f == "~":
             items.append(("~",))     # timing only: the next flush is inserted after the local tasks have completed
         elif f.startswith("F"):
@@ -64,6 +68,8 @@ def parse_case(case):
 def item_txt(it):
     if it[0] in ("!", "~"):
         return it[0]
+    if it[0] == "%":
+        return "%%%d" % it[1]
     if it[0] == "F":
         return "F*" if it[1] is None else "F%d" % it[1]
     _, rank, acc, aff = it[:4]
@@ -72,9 +78,9 @@ def item_txt(it):
     return s if aff is not None else "@%d %s" % (rank, s)
 
 
-def case_txt(ranks, ndata, threads, sched, window, threshold, spin, owner, items):
-    return "dtdflush %d %d %d %s %d %d %d %s | %s" % (
-        ranks, ndata, threads, sched, window, threshold, spin, ",".join(map(str, owner)),
+def case_txt(ranks, ndata, threads, sched, window, threshold, spin, owner, items, tb=16):
+    return "dtdflush %d %d %d %s %d %d %d %s %d | %s" % (
+        ranks, ndata, threads, sched, window, threshold, spin, ",".join(map(str, owner)), tb,
         " ; ".join(item_txt(i) for i in items))
 
 
@@ -118,16 +124,16 @@ def replay(case):
     return ins_all, snaps, list(cur)
 
 
-NB = 4          # elements of a tile (harness/h_dtdflush.c)
-PMOD_E = 1000003
+def enc(v, j):
+    return ((v >> (8 * (j % 3))) + 37 * (j // 3)) & 255
 
 
-def tile_elems(txt):
-    """elements of a printed tile: 'v' stands for v, v + PMOD, v + 2 PMOD ..."""
+def tile_elems(txt, tb=None):
+    """bytes of a printed tile: 'v' stands for enc(v, 0), enc(v, 1), ... (harness/h_dtdflush.c); without tb a
+       consistent tile is kept as its value"""
     if "/" in txt:
         return [int(x) for x in txt.split("/")]
-    v = int(txt)
-    return [v + i * PMOD_E for i in range(NB)]
+    return [enc(int(txt), j) for j in range(tb)] if tb else int(txt)
 
 
 def parse_obs(obs):
@@ -160,6 +166,10 @@ def verdict(case, obs):
     hdr, items = parse_case(case)
     ins, snaps, final = replay(case)
     ntasks = len(ins)
+    tb = hdr["bytes"]
+
+    def elems(x):
+        return x if isinstance(x, list) else tile_elems(str(x), tb)
     if len(o["runs"]) != ntasks or len(o["ins"]) != ntasks or len(o["snaps"]) != len(snaps):
         return ("unparsable", "observation has %d tasks / %d snapshots, case has %d / %d"
                 % (len(o["runs"]), len(o["snaps"]), ntasks, len(snaps)))
@@ -171,15 +181,17 @@ def verdict(case, obs):
     # owner's copy after flush + wait = value of the last inserted writer, element by element
     for k, ((want, constrained), got) in enumerate(zip(snaps, o["snaps"])):
         for d in sorted(constrained):
-            for i, (g, w) in enumerate(zip(got[d], tile_elems(str(want[d])))):
+            for i, (g, w) in enumerate(zip(elems(got[d]), tile_elems(str(want[d]), tb))):
                 if g != w:
-                    return ("owner-copy", "after wait %d element %d of the copy of datum %d at its owner (rank %d) is %d; "
+                    return ("owner-copy", "after wait %d byte %d of the copy of datum %d at its owner (rank %d) is %d; "
                             "the last task inserted that writes the tile left %d there"
                             % (k, i, d, hdr["owner"][d], g, w))
     for d, (got, want) in enumerate(zip(o["data"], final)):
-        for i, (g, w) in enumerate(zip(got, tile_elems(str(want)))):
+        if isinstance(got, list) and len(got) != tb:
+            return ("unparsable", "tile of %d bytes printed with %d" % (tb, len(got)))
+        for i, (g, w) in enumerate(zip(elems(got), tile_elems(str(want), tb))):
             if g != w:
-                return ("owner-copy", "after the final flush_all and wait element %d of the copy of datum %d at its owner "
+                return ("owner-copy", "after the final flush_all and wait byte %d of the copy of datum %d at its owner "
                         "(rank %d) is %d; the last task inserted that writes the tile left %d there"
                         % (i, d, hdr["owner"][d], g, w))
     # tasks inserted after a flush (and every other task) see the value of the last inserted writer
@@ -188,7 +200,7 @@ def verdict(case, obs):
             return ("task-input", "task %d observed inputs %s, the last inserted writers produced %s"
                     % (t, ",".join(got) or "-", ",".join(map(str, want)) or "-"))
     if o["torn"] != 0:
-        return ("task-input", "%d elements seen by task bodies did not belong to the value of element 0 of their tile"
+        return ("task-input", "%d bytes seen by task bodies did not belong to the value held by bytes 0..2 of their tile"
                 % o["torn"])
     return None
 
@@ -294,6 +306,8 @@ class FlushGen:
                 mid.append(d)
                 lastuse[d] = -1
         ins_at = {}
+        if ranks > 1 and items and r.chance(1, 6):    # ... or some rank inserts the rest of the phase late
+            ins_at.setdefault(r.below(len(items)), []).append(("%", r.below(ranks)))
         for d in mid:
             pos = r.range(lastuse[d] + 1, len(items))
             ins_at.setdefault(pos, []).append(d)
@@ -302,12 +316,22 @@ class FlushGen:
         out = []
         for i in range(len(items) + 1):
             for d in ins_at.get(i, []):
-                out.append(("F", d))
+                out.append(d if isinstance(d, tuple) else ("F", d))
             if i < len(items):
                 out.append(items[i])
         # late flush: the flushes at the end of the phase are inserted after the local tasks have completed
         if late:
             out.append(("~",))
+        # the others run ahead: one rank (an owner of a tile written elsewhere when there is one) inserts the flushes
+        # late, the activations of the flush tasks reach it before it knows them
+        if ranks > 1 and r.chance(1, 3):
+            lw = {}
+            for it in items:
+                for (d, m) in it[2]:
+                    if m != "r":
+                        lw[d] = it[1]
+            cand = sorted(set(owner[d] for d in lw if lw[d] != owner[d]))
+            out.append(("%", r.pick(cand) if cand else r.below(ranks)))
         # end of the phase: every live tile flushed before the wait
         rest = [d for d in lastuse if d not in mid]
         k = r.below(3)
@@ -489,11 +513,11 @@ class C17(Check):
                   "by a Python replay.")
     level_note = ("The model works on tile VALUES: a tile is moved as a whole, by the datatype of its first access "
                   "(parsec_insert_dtd_task sets tile->arena_index once; the flush tasks ship and copy with it). The harness "
-                  "uses tiles of 4 elements (element i of a tile of value v holds v + i*1000003) and two arena datatypes "
-                  "(whole tile / leading 2 elements); writers and the first access of a tile use the whole tile, later reads "
+                  "uses byte tiles of 3..16 bytes (byte j of a tile of value v holds enc(v, j)) and two arena datatypes of bytes "
+                  "(whole tile / leading 3 bytes); writers and the first access of a tile use the whole tile, later reads "
                   "on the rank that produced the version may use the leading part (consumers of one version on one rank must "
-                  "agree on the size: the receiving side takes the consumers' datatype); the oracle compares every element of "
-                  "the owner's copy. Trusted: Coq kernel, extraction, harness bodies, Open MPI / mpiexec with oversubscription, MPI_Reduce merge of "
+                  "agree on the size: the receiving side takes the consumers' datatype); the oracle compares every byte of "
+                  "the owner's copy. A crash of an MPI job is believed only when the case crashes again in a job of its own. Trusted: Coq kernel, extraction, harness bodies, Open MPI / mpiexec with oversubscription, MPI_Reduce merge of "
                   "the per-rank observations. The model orders a writer after the earlier readers of the tile on every rank "
                   "(one global chain); the runtime orders tasks of different ranks only through the data they exchange. Not "
                   "modelled: remote copies, activation messages, descriptors of remote tasks, the window warm-up. In runs with "
@@ -510,7 +534,9 @@ class C17(Check):
             "the leading-part datatype, one tile in two written off its owner gets a last leading-part read before its flush; "
             "one phase in five is a set of writer chains that leave the owner and return (owner -> other ranks -> owner), "
             "one phase in three flushes late (the inserting threads first wait for the bodies of their local tasks, so that "
-            "the flush takes the last-user-not-alive branch of parsec_insert_dtd_flush_task); "
+            "the flush takes the last-user-not-alive branch of parsec_insert_dtd_flush_task); tiles of 3..16 bytes (two thirds "
+            "of the cases with a size that is not a multiple of 4); in one phase in three a rank inserts its flushes 30 ms "
+            "late so that the activations of the other ranks are deferred; "
             "single-tile flushes after the "
             "last use of the tile in the phase, flushes of untouched tiles, repeated flushes, flush_all; every phase ends "
             "with all used tiles flushed and a wait (one rank: also waits without flush); 8 configurations of (ranks, "
@@ -541,9 +567,9 @@ class C17(Check):
 
     max_hangs = 6            # a broken runtime must not stretch the run to (cases) x (time-out)
 
-    def run_group(self, tag, ranks, lines, stall):
+    def run_group(self, tag, ranks, lines, stall, solo=False):
         res, rest, attempt = [], list(lines), 0
-        while rest and attempt < 4:
+        while rest and attempt < 5:
             if getattr(self, "nhangs", 0) >= self.max_hangs:
                 res += ["<impl not run: %d cases hung before>" % self.nhangs] * len(rest)
                 return res
@@ -598,6 +624,17 @@ class C17(Check):
             got = [l for l in got if l and not l.startswith("#")][:len(rest)]
             res += got
             rest = rest[len(got):]
+            if rest and not why and not solo:
+                # a crash is believed only when the case crashes again in a job of its own (a process that ran
+                # many cases before, on a machine under heavy load, is not the input's fault)
+                again = self.run_group(tag + ".solo%d" % attempt, ranks, rest[:1], stall, solo=True)
+                self.cov["crashes_rerun"] = self.cov.get("crashes_rerun", 0) + 1
+                if not again[0].startswith("<"):
+                    self.cov["crashes_not_confirmed_by_rerun"] = self.cov.get("crashes_not_confirmed_by_rerun", 0) + 1
+                res.append(again[0])
+                rest = rest[1:]
+                attempt += 1
+                continue
             if rest:
                 if why:
                     self.nhangs = getattr(self, "nhangs", 0) + 1
@@ -680,7 +717,8 @@ class C17(Check):
                     style = "bounce" if r.chance(1, 5) else r.pick(self.styles)
                     items += g.phase(ranks, ndata, owner, nt, style, ph == nph - 1, late or (style == "bounce" and th >= 2 and r.chance(1, 2)))
                 spin = r.pick([0, r.range(1, 1000), r.range(1, 1000)])
-                c = case_txt(ranks, ndata, th, sc, w, h, spin, owner, items)
+                tb = r.pick([3, 5, 6, 7, 7, 9, 11, 13, 13, 16, 16, 8])
+                c = case_txt(ranks, ndata, th, sc, w, h, spin, owner, items, tb)
                 if self.excluded(c):
                     self.cov["generated_in_defect_classes"] += 1
                     continue
@@ -786,7 +824,7 @@ class C17(Check):
     def dist(self, cases):
         d = {"cases": len(cases), "ranks": {}, "threads": {}, "sched": {}, "window": {}, "tasks_hist": {},
              "flush_single": 0, "flush_all": 0, "waits": 0, "tasks_placed_off_owner_of_written_tile": 0,
-             "affinity_on_flow": 0, "max_tasks": 0, "late_flush_points": 0, "reads_of_leading_part": 0,
+             "affinity_on_flow": 0, "max_tasks": 0, "late_flush_points": 0, "run_ahead_points": 0, "tile_bytes": {}, "reads_of_leading_part": 0,
              "flushes_after_a_leading_part_read_of_a_tile_written_off_owner": 0}
         for c in cases:
             try:
@@ -799,6 +837,7 @@ class C17(Check):
             d["max_tasks"] = max(d["max_tasks"], nt)
             for k in ("ranks", "threads", "sched", "window"):
                 d[k][str(hdr[k])] = d[k].get(str(hdr[k]), 0) + 1
+            d["tile_bytes"][str(hdr["bytes"])] = d["tile_bytes"].get(str(hdr["bytes"]), 0) + 1
             lasthead, remote = {}, {}
             for it in items:
                 if it[0] == "T":
@@ -818,6 +857,8 @@ class C17(Check):
                     d["waits"] += 1
                 elif it[0] == "~":
                     d["late_flush_points"] += 1
+                elif it[0] == "%":
+                    d["run_ahead_points"] += 1
                 elif it[0] == "T":
                     d["affinity_on_flow"] += it[3] is not None
                     d["tasks_placed_off_owner_of_written_tile"] += any(m != "r" and it[1] != hdr["owner"][x] for (x, m) in it[2])
